@@ -2,6 +2,7 @@
 import math
 from fractions import Fraction
 
+import common
 from common import PANIC, val, show
 import exact as ex
 from exact import Expect, U
@@ -12,6 +13,8 @@ def _judge_table(prop, typ, E, kv, res, case, variant, context):
     for name, e in E.items():
         tok = kv.get(name)
         if tok is None:
+            if common.absent_ok(variant, name):
+                continue
             res.violation(prop, '%s.%s:missing' % (typ, name), '%s: accessor %s not reported' % (typ, name), case, variant)
             continue
         if e.special == 'skip':
